@@ -80,5 +80,16 @@ CHECKS = {
           "Uniqueness over all interleavings is not decided.",
   "note": "Trusted: clang 14 CFG; 64-bit lock-free atomics on VersionedValue (asserted by the platform, not by this check).",
   "technique": "static analysis: provenance (desired value derives from observed value + constant), edge-guard, dominance and memory-order rules over CFG facts"},
+ "C13": {
+  "text": "Decides on the coroutine futex, cancellable wrapper, promise and awaitables: a waiter is resumed only by a holder of a successful "
+          "DepositBox take of its node (guard by the take result with same-variable null-test correlation; in wake_all a node whose take "
+          "failed is unlinked from the resume chain), every resume is followed by exactly one finish_released, nothing touches a node after "
+          "finish_released(node->id) (violated by the original tree: finding F5b, replayed and fixed), the slot emplaced for a wait is on "
+          "every path handed over or released (violated by the original tree: finding F5a, replayed and fixed), list surgery and the value "
+          "test run under the futex mutex, final_suspend / Task::await_suspend / the future awaitable continue exactly one party on every "
+          "path, and the inline fallback resume happens exactly when the executor refused. The tests drive coroutines from one thread and "
+          "never reuse a node that wake_all is still walking. Schedule-level exactly-once and run-time executor identity are not decided.",
+  "note": "Trusted: clang 14 CFG; compiler-generated coroutine frames (coroutine bodies themselves are not analysed, only the awaiter/promise protocol functions).",
+  "technique": "static analysis: use-after-release, resource-flow, exactly-once path counting, lock-dominance and null-correlated edge-guard rules over CFG facts"},
 }
 NOT_APPLICABLE = {("C%02d" % i): PENDING for i in range(1, 21) if ("C%02d" % i) not in CHECKS}
